@@ -862,6 +862,14 @@ func IncoherentSchema(t *rapid.T) *SchemaSpec {
 
 	typeNames := NamePool(t, n, "tname")
 	relPool := NamePool(t, 5, "rname")
+
+	// Dense: few types with many relationships each (a dozen and more),
+	// several of them naming inverses of the same name.
+	dense := n <= 5 && rapid.IntRange(0, 7).Draw(t, "dense") == 0
+	if dense {
+		relPool = NamePool(t, 14, "rname-dense")
+	}
+
 	faulty := rapid.Bool().Draw(t, "faulty")
 
 	fault := func(label string, oneIn int) bool {
@@ -889,6 +897,10 @@ func IncoherentSchema(t *rapid.T) *SchemaSpec {
 	maxEdges := 8
 	if n > maxEdges {
 		maxEdges = n
+	}
+
+	if dense {
+		maxEdges = 50
 	}
 
 	ne := rapid.IntRange(0, maxEdges).Draw(t, "nrels")
@@ -926,6 +938,10 @@ func IncoherentSchema(t *rapid.T) *SchemaSpec {
 
 		if rapid.IntRange(0, 2).Draw(t, "twoway") > 0 {
 			y := rapid.SampledFrom(relPool).Draw(t, "y")
+			if dense && rapid.Bool().Draw(t, "y-common") {
+				y = relPool[rapid.IntRange(0, 1).Draw(t, "y-common-name")]
+			}
+
 			rel.ToName = y
 
 			if fault("wrongFromType", 8) {
